@@ -811,7 +811,7 @@ LAW(W3_chain_rule, RC, 30000, 1000000, 192, "a transformed parameter whose funct
 // "Evaluated at ANY real-valued transformed point equals the original function at the back-transformed point" holds
 // for every evaluation of a history, in particular when the function was moved by another route in between and the
 // wrapper is evaluated again at a coordinate vector it already holds (nothing changes on the wrapper's side).
-LAW(W4_shared_function_history, RC, 20000, 600000, 320, "a wrapper is evaluated with at least one coordinate bitwise equal to the one it holds after the shared function was moved away from that value directly, through a clone or through a second wrapper") {
+LAW(W4_shared_function_history, RC, 30000, 800000, 320, "a wrapper is evaluated with at least one coordinate bitwise equal to the one it holds after the shared function was moved away from that value directly, through a clone or through a second wrapper") {
   Fn F = genFn(c);
   int kind = static_cast<int>(c.below(3)); bool sub = c.oneIn(5);
   vector<size_t> subset; if (sub) subset = genSubset(c, F.ps.size());
